@@ -90,6 +90,9 @@ def _plan_for(world, prop, tier, seed, idx):
     return world.generate(ch, tier, prop)
 
 
+_PROCESS_HISTORY = []  # (kind, key) of every run executed in this process, in order
+
+
 def _run_batch(args):
     """Worker: run a batch of indices (or explicit plans); aggregate."""
     prop, tier, seed, items, per_run_timeout, want_digests = args
@@ -149,8 +152,9 @@ def _run_batch(args):
             agg["samples"].append({"run": f"{kind}:{key}", "case": res["sample"]})
         if viol is not None:
             agg["violations"].append(
-                {"key": f"{kind}:{key}", "signature": viol.signature, "msg": viol.msg[:2000], "plan": plan}
+                {"key": f"{kind}:{key}", "signature": viol.signature, "msg": viol.msg[:2000], "plan": plan, "history": list(_PROCESS_HISTORY[-300:])}
             )
+        _PROCESS_HISTORY.append((kind, key))
     agg["scheds"] = sorted(agg["scheds"])
     agg["states"] = sorted(agg["states"])
     return agg
@@ -165,63 +169,128 @@ def chunked(seq, n):
 # minimisation
 
 
-def _fails_same(world, plan, prop, signature):
-    try:
-        _, viol = execute_plan(world, plan, prop)
-    except Exception:
-        return False
-    return viol is not None and viol.signature == signature
+def in_clean_child(fn, timeout=900):
+    """Run fn() in a forked child and return its JSON-serialisable result: the parent process must never execute library code
+    itself, so that every fork of it starts from a clean library state."""
+    r, w = os.pipe()
+    pid = os.fork()
+    if pid == 0:
+        os.close(r)
+        try:
+            faulthandler.dump_traceback_later(timeout, exit=True)
+            data = json.dumps(fn()).encode()
+            with os.fdopen(w, "wb") as f:
+                f.write(data)
+            os._exit(0)
+        except BaseException:
+            import traceback
+
+            traceback.print_exc()
+            os._exit(3)
+    os.close(w)
+    with os.fdopen(r, "rb") as f:
+        data = f.read()
+    _, status = os.waitpid(pid, 0)
+    if status != 0:
+        raise HarnessError(f"child computing {getattr(fn, '__name__', fn)} died with status {status}")
+    return json.loads(data)
 
 
-def minimise(world, plan, prop, signature, budget_s=90.0, max_exec=400):
-    """ddmin over plan['steps'], then the world's own per-step simplifications; keeps a candidate only
-    if the same signature still fails."""
+def forked_signature(world, prelude, plan, prop, timeout=600):
+    """Execute prelude plans then plan in a forked child (a clean copy of this process, which never executes plans itself);
+    returns the violation signature of the last plan ('' if none, None if the child died)."""
+    r, w = os.pipe()
+    pid = os.fork()
+    if pid == 0:
+        os.close(r)
+        try:
+            faulthandler.dump_traceback_later(timeout, exit=True)
+            for p in prelude:
+                try:
+                    execute_plan(world, p, prop)
+                except BaseException:
+                    pass
+            _, viol = execute_plan(world, plan, prop)
+            os.write(w, (viol.signature if viol is not None else "").encode())
+            os._exit(0)
+        except BaseException:
+            os._exit(3)
+    os.close(w)
+    data = b""
+    while True:
+        chunk = os.read(r, 65536)
+        if not chunk:
+            break
+        data += chunk
+    os.close(r)
+    _, status = os.waitpid(pid, 0)
+    if status != 0:
+        return None
+    return data.decode()
+
+
+def _ddmin(items, test, deadline, keep_one=True):
+    n = 2
+    while len(items) >= (2 if keep_one else 1) and time.time() < deadline:
+        size = max(1, len(items) // n)
+        reduced = False
+        for start in range(0, len(items), size):
+            cand = items[:start] + items[start + size :]
+            if keep_one and not cand:
+                continue
+            if test(cand):
+                items = cand
+                n = max(n - 1, 2)
+                reduced = True
+                break
+        if not reduced:
+            if size == 1:
+                break
+            n = min(n * 2, len(items))
+    return items
+
+
+def minimise(world, plan, prop, signature, prelude=(), budget_s=90.0, max_exec=400):
+    """ddmin over the prelude (earlier runs of the same process, when the failure needs state they left behind), then over
+    plan['steps'], then the world's own per-step simplifications. Every candidate runs in a forked clean process and is kept
+    only if the same signature still fails."""
     t0 = time.time()
+    deadline = t0 + budget_s
     execs = [0]
+    prelude = list(prelude)
 
-    def ok(p):
-        if time.time() - t0 > budget_s or execs[0] >= max_exec:
+    def ok(pre, p):
+        if time.time() > deadline or execs[0] >= max_exec:
             return False
         execs[0] += 1
-        return _fails_same(world, p, prop, signature)
+        return forked_signature(world, pre, p, prop) == signature
 
     best = json.loads(canonical_json(plan))
+    if prelude:
+        prelude = _ddmin(prelude, lambda c: ok(c, best), deadline, keep_one=False)
     steps = best.get("steps")
     if isinstance(steps, list) and len(steps) > 1:
-        n = 2
-        while len(steps) >= 2 and time.time() - t0 < budget_s:
-            size = max(1, len(steps) // n)
-            reduced = False
-            for start in range(0, len(steps), size):
-                cand_steps = steps[:start] + steps[start + size :]
-                if not cand_steps and not getattr(world, "ALLOW_EMPTY_STEPS", False):
-                    continue
-                cand = dict(best)
-                cand["steps"] = cand_steps
-                if ok(cand):
-                    steps = cand_steps
-                    best = cand
-                    n = max(n - 1, 2)
-                    reduced = True
-                    break
-            if not reduced:
-                if size == 1:
-                    break
-                n = min(n * 2, len(steps))
+        allow_empty = getattr(world, "ALLOW_EMPTY_STEPS", False)
+
+        def t(c):
+            return ok(prelude, dict(best, steps=c))
+
+        steps = _ddmin(steps, t, deadline, keep_one=not allow_empty)
+        best = dict(best, steps=steps)
     shrink = getattr(world, "shrink", None)
     if shrink is not None:
         progress = True
-        while progress and time.time() - t0 < budget_s:
+        while progress and time.time() < deadline:
             progress = False
             for cand in shrink(best):
-                if ok(cand):
+                if ok(prelude, cand):
                     best = cand
                     progress = True
                     break
-    return best, execs[0]
+    return best, prelude, execs[0]
 
 
-def write_replay(prop, world, seed, key, plan, signature, msg):
+def write_replay(prop, world, seed, key, plan, signature, msg, prelude=()):
     os.makedirs(REPLAYS, exist_ok=True)
     name = f"{prop}-{seed}-{str(key).replace(':', '_')}-{h8(signature)[:8]}.json"
     path = os.path.join(REPLAYS, name)
@@ -234,6 +303,8 @@ def write_replay(prop, world, seed, key, plan, signature, msg):
                 "run": key,
                 "signature": signature,
                 "message": msg,
+                "prelude": list(prelude),
+                "prelude_note": "plans executed before 'plan' in the same interpreter; non-empty when the failure needs state that earlier runs left behind in the process (module/class level)",
                 "plan": plan,
             },
             f,
@@ -249,6 +320,11 @@ def replay_file(path, verbose=True):
         rep = json.load(f)
     prop = rep["property"]
     world = load_world(prop)
+    for pre in rep.get("prelude", []):
+        try:
+            execute_plan(world, pre, prop)
+        except BaseException:
+            pass
     res, viol = execute_plan(world, rep["plan"], prop, keep_events=True)
     if verbose:
         for line in res.get("events", [])[-60:]:
@@ -294,7 +370,8 @@ def run_check(prop, tier, seed, budget_s=None, workers=None, want_digests=False,
     items = []
     enum_plans = []
     if hasattr(world, "enumerate_plans"):
-        enum_plans = list(world.enumerate_plans(tier, prop, seed))
+        # enumeration may execute base sessions to learn stream lengths: do it in a child so this process stays clean
+        enum_plans = in_clean_child(lambda: list(world.enumerate_plans(tier, prop, seed)))
         items += [("enum", i, p) for i, p in enumerate(enum_plans)]
     items += [("idx", i, None) for i in range(runs)]
 
@@ -392,15 +469,39 @@ def run_check(prop, tier, seed, budget_s=None, workers=None, want_digests=False,
             print(f"  (further distinct violation signature not minimised: {sig} hits={len(vs)})")
             exit_code = 1
             continue
-        first = min(vs, key=lambda v: len(canonical_json(v["plan"])))
-        plan, execs = minimise(world, first["plan"], prop, sig, budget_s=cfg.get("minimise_budget", 90))
-        res, viol = execute_plan(world, plan, prop)
-        msg = viol.msg if viol is not None else first["msg"]
-        path = write_replay(prop, world, seed, first["key"], plan, sig, msg)
+        def plan_of(hk):
+            kind_, key_ = hk
+            return enum_plans[key_] if kind_ == "enum" else _plan_for(world, prop, tier, seed, key_)
+
+        cands = sorted(vs, key=lambda v: len(canonical_json(v["plan"])))[:4]
+        chosen = None
+        for cand in cands:
+            if forked_signature(world, [], cand["plan"], prop) == sig:
+                chosen = (cand, [])
+                break
+        if chosen is None:
+            # not reproducible in a clean process: the failure needs state left behind by earlier runs of the worker process
+            for cand in cands[:2]:
+                pre = [plan_of(hk) for hk in cand.get("history", [])]
+                if forked_signature(world, pre, cand["plan"], prop) == sig:
+                    chosen = (cand, pre)
+                    break
+        if chosen is None:
+            print(f"HARNESS-ERROR violation {sig} (first seen in run {cands[0]['key']}) reproduces neither alone nor after the worker's earlier runs in a clean process")
+            harness_fail = harness_fail or "violation not reproducible"
+            continue
+        first, prelude = chosen
+        plan, prelude, execs = minimise(world, first["plan"], prop, sig, prelude=prelude, budget_s=cfg.get("minimise_budget", 90))
+        msg = first["msg"]
+        path = write_replay(prop, world, seed, first["key"], plan, sig, msg, prelude=prelude)
         ok, out = confirm_in_fresh_interpreter(path, sig)
+        if not ok:
+            # fall back to the unminimised, already confirmed reproduction
+            path = write_replay(prop, world, seed, first["key"], first["plan"], sig, msg, prelude=chosen[1])
+            ok, out = confirm_in_fresh_interpreter(path, sig)
         if ok:
             print(f"VIOLATION property={prop} replay={path}")
-            print(f"  signature={sig} hits={len(vs)} minimise_execs={execs}")
+            print(f"  signature={sig} hits={len(vs)} minimise_execs={execs}" + (f" prelude_runs={len(prelude)} (needs state left behind by earlier runs in the same process)" if prelude else ""))
             print(f"  {msg[:600]}")
             exit_code = 1
         else:
